@@ -492,6 +492,12 @@ func runC01(c *Ctx) {
 			for _, arm := range TypeSwitchArms(wir.TypesInfo, ts) {
 				// make([]byte, N), ParseX(..., bits)
 				size, bits, fn := int64(-1), int64(-1), ""
+				parseCalls := map[string]int64{}
+				type parseCall struct {
+					fn   string
+					bits int64
+				}
+				var parseSeq []parseCall
 				for _, call := range callsIn(wir.TypesInfo, arm.Body) {
 					name := types.ExprString(call.Fun)
 					if name == "make" && len(call.Args) == 2 {
@@ -504,8 +510,20 @@ func runC01(c *Ctx) {
 						if tv, ok := wir.TypesInfo.Types[call.Args[len(call.Args)-1]]; ok && tv.Value != nil {
 							bits, _ = constant.Int64Val(tv.Value)
 						}
+						parseSeq = append(parseSeq, parseCall{fn, bits})
 					}
 				}
+				// the first parser of the arm is the primary one; a later one is a fallback for another spelling
+				extraOK := true
+				if len(parseSeq) > 0 {
+					fn, bits = parseSeq[0].fn, parseSeq[0].bits
+					for _, pc := range parseSeq[1:] {
+						if pc.bits != bits || !(fn == "ParseUint" && pc.fn == "ParseInt" && bits == 64) {
+							extraOK = false
+						}
+					}
+				}
+				_ = parseCalls
 				for _, t := range arm.Types {
 					tn := namedTypeName(t)
 					k, ok := waKinds[tn]
@@ -521,7 +539,7 @@ func runC01(c *Ctx) {
 						wantFn = "ParseFloat"
 					}
 					wantBits := int64(k.bits)
-					good := fn == wantFn && bits == wantBits && size*8 == wantBits
+					good := fn == wantFn && bits == wantBits && size*8 == wantBits && extraOK
 					c.Check(good, "const-bytes", tn, p.Pos(arm.Clause.Pos()), fmt.Sprintf("%s(..., %d) into %d bytes", fn, bits, size),
 						fmt.Sprintf("constant of kind %s is materialised with strconv.%s(..., %d) into %d bytes; the kind needs %s with bit size %d (the parse error is dropped, so an out-of-range or negative literal silently becomes the clamp value or 0)", tn, fn, bits, size, wantFn, wantBits))
 				}
